@@ -43,8 +43,13 @@ BadFiles(r) ==
     ELSE LET want == FileList(r.files) IN
          {"file:" \o ToString(i) : i \in {j \in 1..Len(want) : ~FileMatches(want[j], r.entries.ok[j], r.cfg)}}
 
+DepCtorOk(r) == /\ r.ctor \in DOMAIN DepSense
+                /\ r.flags = DepSense[r.ctor]
+                /\ r.name = DepName(r.ctor, <<110>>)
+                /\ r.version = (IF r.ctor \in Versioned THEN <<49>> ELSE <<>>)
 Whys(r) ==
-    IF r.event # "Build" THEN {r.event}
+    IF r.event = "DepCtor" THEN (IF DepCtorOk(r) THEN {} ELSE {"DepCtor:" \o r.ctor})
+    ELSE IF r.event # "Build" THEN {r.event}
     ELSE BadScalars(r) \cup BadOpts(r) \cup {"script:" \o k : k \in BadScripts(r)} \cup {"deps:" \o k : k \in BadDeps(r)}
          \cup (IF ChangelogOk(r) THEN {} ELSE {"changelog"}) \cup BadFiles(r)
 
